@@ -340,7 +340,9 @@ func init() {
 				for _, rs := range e.ResultStores(nw, 1) {
 					if r.Has(rs.Instr) {
 						n++
-						o.Check(e.X(nw, rs.Val) == e.X(nw, op.(*ssa.Call))+"#1", "new-open-error|"+sp.pkg, "an unreadable snapshot file is not reported", rs.Instr)
+						for _, v := range e.ValStrs(nw, e.ValsAt(r, rs.Instr, rs.Val)) {
+							o.Check(v == e.X(nw, op.(*ssa.Call))+"#1", "new-open-error|"+sp.pkg, "an unreadable snapshot file is not reported", rs.Instr)
+						}
 					}
 				}
 				o.Check(n > 0, "new-open-noexit|"+sp.pkg, "no error exit for an unreadable snapshot file", nil)
@@ -348,8 +350,9 @@ func init() {
 				r2 := (&Walk{Fn: nw, Cut: e.CutContradicting(oOK.Neg(), ne)}).After(op)
 				for _, rs := range e.ResultStores(nw, 1) {
 					if r2.Has(rs.Instr) {
-						s := e.X(nw, rs.Val)
-						o.Check(s == "nil" || s == e.X(nw, lc.(*ssa.Call)), "new-missing-error|"+sp.pkg, "a missing snapshot file must not be an error, New returns "+s, rs.Instr)
+						for _, s := range e.ValStrs(nw, e.ValsAt(r2, rs.Instr, rs.Val)) {
+							o.Check(s == "nil" || s == e.X(nw, lc.(*ssa.Call)), "new-missing-error|"+sp.pkg, "a missing snapshot file must not be an error, New returns "+s, rs.Instr)
+						}
 					}
 				}
 			}
